@@ -177,4 +177,19 @@ Section Shape.
       rewrite F0. replace (maxgp <? 0)%N with false by (symmetry; apply N.ltb_ge; lia). reflexivity.
     - rewrite F, M. reflexivity.
   Qed.
+
+  (* the first entry processed after a resume is a first occurrence whatever hasLastUkey / lastUkey / lastSeq were restored
+     to: starting the resumed run with hasLastUkey = false gives the same iteration *)
+  Theorem resume_last_irrelevant o i e m u q : tw m = None -> first_occ c m (e_uk e) = true ->
+    step_good c p sz gp maxgp deeper minSeq tableSize tsize o true i e (set_last m false u q) =
+    step_good c p sz gp maxgp deeper minSeq tableSize tsize o true i e m.
+  Proof.
+    intros T F. unfold Builder.step_good.
+    assert (F1 : first_occ c (set_cs (set_last m false u q) (cs (set_last m false u q))) (e_uk e) = true) by reflexivity.
+    assert (F2 : first_occ c (set_cs m (cs m)) (e_uk e) = true) by exact F.
+    rewrite F1, F2.
+    assert (T1 : tw (set_cs (set_last m false u q) (cs (set_last m false u q))) = None) by exact T.
+    assert (T2 : tw (set_cs m (cs m)) = None) by exact T.
+    rewrite T1, T2. reflexivity.
+  Qed.
 End Shape.
